@@ -66,7 +66,10 @@ def cfgOfString (s : String) : Option (Option Config) :=
   | _ => none
 
 /-- prediction for save(name) / load(name) evaluated in cur/ -/
-def fsModel (cfg : Option Config) (isSave : Bool) (name : Bytes) : FObs :=
+def fsModel (cfg : Option Config) (op : String) (name : Bytes) : FObs :=
+  let isSave := op == "save"
+  -- image.new(name,2,2); image.save(name): registered in every configuration, fixed file name
+  if op == "img" then ⟨.ok [], [('C', str "cur/grol.png")]⟩ else
   match cfg with
   | none => ⟨.err, []⟩
   | some c =>
@@ -99,7 +102,12 @@ def stmtS (cfg : Config) (o : Option Bytes) : Bool :=
 
 def curPrefix : Bytes := str "cur/"
 
-def stmtF (cfg : Option Config) (isSave : Bool) (o : FObs) : Bool :=
+def stmtF (cfg : Option Config) (op : String) (o : FObs) : Bool :=
+  let isSave := op == "save"
+  if op == "img" then
+    (match cfg with | some c => c.unrestricted | none => false) ||
+      o.touched.all (fun (k, p) => (k == 'C' || k == 'M') && p == str "cur/grol.png")
+  else
   match cfg with
   | none => o.res == .err && o.touched.isEmpty
   | some c =>
@@ -152,10 +160,9 @@ def runCase (inp obs : String) : CaseResult :=
   | ["f", c, op, n] =>
     match cfgOfString c, bytesOfHex n, parseFObs obs with
     | some cfg, some name, some io =>
-      if op != "save" && op != "load" then CaseResult.badLine else
-      let isSave := op == "save"
-      let mo := fsModel cfg isSave name
-      { model := mo.render, agree := mo == io, stmtModel := stmtF cfg isSave mo, stmtImpl := stmtF cfg isSave io,
+      if op != "save" && op != "load" && op != "img" then CaseResult.badLine else
+      let mo := fsModel cfg op name
+      { model := mo.render, agree := mo == io, stmtModel := stmtF cfg op mo, stmtImpl := stmtF cfg op io,
         tags := [s!"f-cfg{c}-{op}-" ++ (match mo.res with | .err => "err" | .ok _ => "ok")],
         nontrivial := true }
     | _, _, _ => CaseResult.badLine
